@@ -44,6 +44,7 @@ THEOREMS = [P + t for t in (
     "uncoupled_site_is_compute_dynamics", "site_sequence_eq", "uncoupled_reduced_state",
     "two_site_exact", "commuting_gates_exact", "uncoupled_gates_commute",
     "norm_step", "norm_one", "partial_trace_consistent", "gate_on_own_bond",
+    "site_gate_applies_matrix",
     "site_dissipator_trace_annihilating", "nn_dissipator_trace_annihilating",
     "hamiltonian_terms_trace_annihilating", "dissipators_hermiticity_preserving",
     "hamiltonian_terms_hermiticity_preserving", "kronecker_is_pairing",
@@ -314,9 +315,21 @@ def dense_states(b, spec):
         tot += _embed(mats)
     v = _embed([dec(r).reshape(-1) for r in spec["rho0"]])
     u = expm(tot * spec["dt"])
+
+    def controls(v, step, post):
+        # a control superoperator C on site j acts as C @ vec(rho_j), in insertion order
+        for site, st, po, mat in spec.get("controls") or []:
+            if st == step and bool(po) == post:
+                mats = [np.eye(L) for L in Ls]
+                mats[site] = dec(mat)
+                v = _embed(mats) @ v
+        return v
+    v = controls(v, 0, False)
     out = [v]
-    for _ in range(spec["steps"]):
+    for k in range(spec["steps"]):
+        v = controls(v, k, True)
         v = u @ v
+        v = controls(v, k + 1, False)
         out.append(v)
     return out
 
@@ -350,10 +363,52 @@ def site_dynamics(spec, j):
     lops = [dec(a) for _, a in spec["site_diss"][j]]
     system = oqupy.System(h, gammas=gam, lindblad_operators=lops)
     pt = make_pt(spec["pts"][j], spec["dt"], spec["steps"])
-    dyn = oqupy.compute_dynamics(system=system, initial_state=dec(spec["rho0"][j]), dt=spec["dt"],
-                                 num_steps=spec["steps"], process_tensor=pt,
-                                 progress_type="silent")
+    ctl = None
+    mine = [c for c in spec.get("controls") or [] if c[0] == j]
+    if mine:
+        ctl = oqupy.Control(spec["dims"][j])
+        for _, step, post, mat in mine:
+            ctl.add_single(int(step), dec(mat), post=post)
+    import contextlib
+    import io
+    with contextlib.redirect_stdout(io.StringIO()):     # Control.get_controls prints
+        dyn = oqupy.compute_dynamics(system=system, initial_state=dec(spec["rho0"][j]),
+                                     dt=spec["dt"], num_steps=spec["steps"], process_tensor=pt,
+                                     control=ctl, progress_type="silent")
     return [np.asarray(s) for s in dyn.states]
+
+
+def control_library():
+    """non-symmetric trace-preserving single-qubit superoperators (row-major vec): a rotation
+    about y, a reset (operators.preparation) and amplitude damping"""
+    from oqupy import operators as op
+    th = 0.7
+    u = np.array([[np.cos(th / 2), -np.sin(th / 2)], [np.sin(th / 2), np.cos(th / 2)]], dtype=complex)
+    yrot = np.kron(u, u.conj())
+    reset = op.preparation(np.array([[0.7, 0.2 - 0.1j], [0.2 + 0.1j, 0.3]]))
+    pdamp = 0.35
+    k0 = np.diag([1.0, np.sqrt(1 - pdamp)]).astype(complex)
+    k1 = np.array([[0, np.sqrt(pdamp)], [0, 0]], dtype=complex)
+    damp = np.kron(k0, k0.conj()) + np.kron(k1, k1.conj())
+    return {"yrot": yrot, "reset": reset, "ampdamp": damp}
+
+
+def add_controls(spec, rng):
+    """ChainControl entries [site, step, post, matrix] on the qubit sites: pre and post, at the
+    first, an interior and the last step, one stacked pair"""
+    lib = control_library()
+    names = sorted(lib)
+    qubits = [j for j, d in enumerate(spec["dims"]) if d == 2]
+    m = spec["steps"]
+    slots = [(0, False), (0, True), (max(1, m // 2), False), (max(1, m // 2), True), (m, False)]
+    ctl = []
+    for k, (step, post) in enumerate(slots):
+        site = qubits[(k + rng.randrange(len(qubits))) % len(qubits)]
+        ctl.append([site, step, post, enc(lib[names[k % 3]])])
+    site, step, post, _ = ctl[2]
+    ctl.append([site, step, post, enc(lib[rng.choice(names)])])      # stacked on the same slot
+    spec["controls"] = ctl
+    return spec
 
 
 # ---------------------------------------------------------------------------
@@ -370,8 +425,9 @@ def oracle_uncoupled(spec, real=None):
         ref = site_dynamics(spec, j)
         err = max(float(np.abs(a - b).max()) for a, b in zip(real["dyn"][str(j)], ref))
         if err > 1e-8:
-            bad.append(("%suncoupled chain: site %d differs from its single-site computation"
-                        % ("homogeneous " if spec.get("homogeneous") else "", j),
+            bad.append(("%suncoupled chain%s: site %d differs from its single-site computation"
+                        % ("homogeneous " if spec.get("homogeneous") else "",
+                           " with ChainControl" if spec.get("controls") else "", j),
                         {"spec": spec, "site": j, "max_abs_difference": err}))
     return bad
 
@@ -386,8 +442,9 @@ def oracle_dense(spec, real=None, what="two-site"):
         err = max(float(np.abs(st - reduce_dense(v, spec["dims"], keep)).max())
                   for st, v in zip(states, ref))
         if err > 1e-8:
-            bad.append(("%s%s chain: sites %s differ from the propagator of the full Liouvillian"
-                        % ("homogeneous " if spec.get("homogeneous") else "", what, key), {"spec": spec, "sites": keep, "max_abs_difference": err}))
+            bad.append(("%s%s chain%s: sites %s differ from the propagator of the full Liouvillian"
+                        % ("homogeneous " if spec.get("homogeneous") else "", what,
+                           " with ChainControl" if spec.get("controls") else "", key), {"spec": spec, "sites": keep, "max_abs_difference": err}))
     return bad
 
 
@@ -427,7 +484,9 @@ def oracle_norm(spec, real=None):
     err = float(np.abs(real["norm"] - 1.0).max())
     if err > tol:
         what = "norm drifts from one"
-        if any(spec.get("nn_diss") or []):
+        if spec.get("controls"):
+            what += " (chain with ChainControl)"
+        elif any(spec.get("nn_diss") or []):
             what += " (chain with nearest-neighbour dissipators)"
         elif any(spec["site_diss"]):
             what += " (chain with site dissipators)"
@@ -1034,6 +1093,8 @@ def correspondence(res, tier, rng):
     damp = np.diag([1.0, 0.5, 0.5, 1.0]).astype(complex)
     dense_specs[1]["controls"] = [[0, 1, False, enc(kick)], [2, 0, True, enc(damp)],
                                   [0, 1, False, enc(damp)]]
+    add_controls(dense_specs[0], rng)
+    add_controls(dense_specs[3], rng)
     for spec in dense_specs:
         line, real, b = dense_line(spec)
 
@@ -1147,6 +1208,7 @@ def correspondence(res, tier, rng):
                                     pts=[None, None, dict(tempo, axis="z"), None],
                                     sites=[0, 1, 2, 3, [0, 1], [1, 3], [0, 1, 3], [1, 2, 3]])))
     rel += homogeneous_specs(rng, tempo)
+    rel += control_specs(rng, tempo)
     if tier != "quick":
         for _ in range(6):
             n = rng.choice([2, 3, 4, 5])
@@ -1182,6 +1244,19 @@ def homogeneous_specs(rng, tempo):
     ]
 
 
+def control_specs(rng, tempo):
+    """chains WITH a ChainControl of non-symmetric superoperators"""
+    z = dict(tempo, axis="z")
+    return [
+        ("uncoupled", add_controls(gen_spec(rng, 3, "uncoupled", 2, pts=[None, z, None], steps=3,
+                                            epsrel=1e-10, sites=[0, 1, 2, [0, 2]]), rng)),
+        ("two-site", add_controls(gen_spec(rng, 2, "coupled", 1, steps=3, epsrel=1e-10,
+                                           sites=[0, 1, [0, 1]]), rng)),
+        ("commuting", add_controls(gen_spec(rng, 3, "commuting", 2, steps=2, epsrel=1e-10,
+                                            sites=[0, 1, 2, [0, 1], [0, 1, 2]]), rng)),
+    ]
+
+
 def relations(what, spec):
     real = run_real(spec)
     real.pop("obj")
@@ -1210,6 +1285,7 @@ def search(res, rng=None):
     #     hypotheses of norm_step, then ladder-operator dissipators (hopping, pair decay)
     todo = [("coupled", spec) for spec, _ in getattr(res, "hyp_violations", [])[:3]]
     todo += homogeneous_specs(rng, tempo)
+    todo += control_specs(rng, tempo)
     sm = np.array([[0, 0], [1, 0]], dtype=complex)
     for n, (opl, opr_), g in ((3, (sm, sm.T), 0.9), (2, (sm, sm), 1.2)):
         spec = gen_spec(rng, n, "coupled", 2, steps=3, epsrel=1e-10, nn_dissipation=False,
